@@ -16,6 +16,7 @@ type PSlide struct {
 	DeclPos  int    // position in <p:sldIdLst> (0: undeclared orphan part, no relationship)
 	RelPos   int    // position in presentation.xml.rels
 	ZipPos   int
+	Absent   bool // listed and related as usual, but the part itself is not put into the archive
 }
 
 // Deck is a whole PPTX package.
@@ -72,7 +73,9 @@ func (d *Deck) Members() []Member {
 	ov := []Override{{"ppt/presentation.xml", ctPres}, {"ppt/slideMasters/slideMaster1.xml", ctMaster},
 		{"ppt/slideLayouts/slideLayout1.xml", ctLayout}, {"ppt/theme/theme1.xml", ctTheme}}
 	for _, s := range d.Slides {
-		ov = append(ov, Override{s.PartName, ctSlide})
+		if !s.Absent {
+			ov = append(ov, Override{s.PartName, ctSlide})
+		}
 	}
 	root := []Rel{{"rId1", relOfficeDoc, "ppt/presentation.xml"}}
 	master := xmlDecl + `<p:sldMaster` + pNS + `><p:cSld><p:spTree>` + emptyTree + `</p:spTree></p:cSld>` + clrMap +
@@ -108,6 +111,9 @@ func (d *Deck) Members() []Member {
 	zs := append([]PSlide{}, d.Slides...)
 	sort.SliceStable(zs, func(i, j int) bool { return zs[i].ZipPos < zs[j].ZipPos })
 	for _, s := range zs {
+		if s.Absent {
+			continue
+		}
 		parts = append(parts, mem(s.PartName, SlideXML(s)))
 		// every slide part relates to its layout (19.3.1.38); an absolute target is
 		// independent of where the slide part lives
